@@ -49,6 +49,7 @@ func c13causeEvents() []string {
 		mk("undecodable-datagram", gw.EvC("", []byte{0x05})),
 		mk("unsupported-packet", gw.EvC("", refsn.Pkt{Type: refsn.ADVERTISE, GwID: 1, Duration: 5}.Encode())),
 		mk("client-sleeps", gw.EvC("", gw.Disconnect(7))),
+		mk("client-connection-closed", gw.EvClientEOF),
 	}
 }
 
@@ -381,7 +382,7 @@ func runTermination(t *testing.T, prop, test string) {
 	}
 	rep := explore.NewReport(prop, "model_checking")
 	gw.BFSCheck(rep, specs, gw.BFSOpts{Test: test}, 240, 1500)
-	rep.Coverage["rule"] = "BFS (depth 4, thorough 5) over a protocol alphabet that reaches disconnected / connecting (auth, will) / active / asleep with and without pinger / awake / pending client QoS 1 / pending broker QoS 1 and 2 / pending gateway REGISTER / an expired sleep period (6 s pass) / a send to a broker that has stopped reading (blocked write) / a client that has become unreachable (sends to it fail); in every reached state every termination cause (gateway shutdown, client DISCONNECT, broker close, broker garbage, undecodable datagram, unsupported packet, going to sleep) is injected, 300 ms of virtual time pass, and the monitor checks: return within one poll interval, broker connection closed, DISCONNECT datagrams to the client, MQTT DISCONNECT only for the client's plain DISCONNECT, no session goroutine alive after firing all remaining timers"
+	rep.Coverage["rule"] = "BFS (depth 4, thorough 5) over a protocol alphabet that reaches disconnected / connecting (auth, will) / active / asleep with and without pinger / awake / pending client QoS 1 / pending broker QoS 1 and 2 / pending gateway REGISTER / an expired sleep period (6 s pass) / a send to a broker that has stopped reading (blocked write) / a client that has become unreachable (sends to it fail); in every reached state every termination cause (gateway shutdown, client DISCONNECT, broker close, broker garbage, undecodable datagram, unsupported packet, the client's transport connection ending, going to sleep) is injected, 300 ms of virtual time pass, and the monitor checks: return within one poll interval, broker connection closed, DISCONNECT datagrams to the client, MQTT DISCONNECT only for the client's plain DISCONNECT, no session goroutine alive after firing all remaining timers"
 	explore.RunScenarios(rep, gw.Scenarios(t, c13e2(prop)), explore.ScenarioOpts{Test: test, QuickBound: 2, ThoroughFrom: 2, ThoroughMax: 3,
 		QuickBudget: 90 * time.Second, ThoroughBudge: 8 * time.Minute})
 	rep.Assumptions = []string{"BFS part: default schedule (the cause racing with an in-flight event is explored by the E2 part of C13 where present)", "virtual time; pending send time is zero in the in-memory model"}
